@@ -1,7 +1,572 @@
-//! C29 — not implemented yet.
-use vcore::Ctx;
+//! C29 — the cache store behaves like a versioned key-value map.
+//!
+//! Stateful, model-based: a generated history of *sessions* the way the two
+//! real callers drive the store — `veryl` (open, one build, `save` only if
+//! the build succeeded, drop) and `veryl-ls` (`try_open`, several builds, each
+//! saved, drop) — is interpreted against the real `Store` in a scratch
+//! directory and against a plain in-memory model (last saved key + map of
+//! entries with their blob bytes).  A build is: per file `keep` (cache hit on a
+//! fragment of the opened manifest) or `put` (with / without blob), then any
+//! `set_dependents` / `set_tests` / `set_diagnostics` / `invalidate`, then
+//! `save`.  Between sessions the key may change and the manifest may be
+//! damaged (garbage, truncated, deleted, other schema number).
+//!
+//! Invariants:
+//!  * after every open: `entry()` of every path of the universe is exactly the
+//!    model's entry of the last successful save when key and schema match
+//!    (hash, dependents, tests, presence of fragment / diagnostics) and
+//!    `load` / `load_diagnostics` return the saved bytes; otherwise no entry;
+//!  * after every `save`: the same through the live store, and every
+//!    `fragment = ` / `diagnostics = ` path in the manifest *file on disk* is
+//!    an existing blob with a valid header (also on the identical-re-scan path
+//!    where the write is skipped).
 
-pub fn run(_ctx: &Ctx) {
-    println!("INCONCLUSIVE property=C29: check not implemented");
-    std::process::exit(2);
+use std::collections::BTreeMap;
+use std::path::Path;
+use vcore::util::Scratch;
+use vcore::{CaseCfg, Ctx, Draw, Outcome, hash_str, json};
+use veryl_cache::{FileEntry, Store, content_hash, global_key};
+
+const PATHS: &[&str] = &[
+    "src/a.veryl",
+    "src/b.veryl",
+    "/abs/dir with space/c.veryl",
+    "src/日本/d.veryl",
+    "dep/x.y/e\"q'.veryl",
+    "src\\win\\f.veryl",
+    "g",
+];
+const NEVER: &str = "src/never.veryl";
+const TESTS: &[&str] = &["test_a", "test_b", "t3", "tëst"];
+
+fn blob_pool() -> Vec<Vec<u8>> {
+    vec![
+        b"A".to_vec(),
+        Vec::new(),
+        b"VFRG\x02\x00\x00\x00nested-header".to_vec(),
+        (0..700u32).map(|i| (i * 7 + 3) as u8).collect(),
+        b"fragment-\xff\xfe\x00-bytes".to_vec(),
+        b"B".to_vec(),
+    ]
+}
+
+#[derive(Clone, Debug, PartialEq, Eq)]
+enum Diag {
+    None,
+    Some(usize),
+    /// `invalidate` after `set_diagnostics`: the doc comment only promises that
+    /// dependents / tests stay and the fragment goes; the diagnostics blob may
+    /// stay (if it does, it must still be this one).
+    Unspecified(usize),
+}
+
+#[derive(Clone, Debug, PartialEq, Eq)]
+struct MEntry {
+    hash: String,
+    frag: Option<usize>,
+    deps: Vec<String>,
+    tests: Vec<String>,
+    diag: Diag,
+}
+
+type Files = BTreeMap<String, MEntry>;
+
+struct Model {
+    /// last successfully saved build: (key, entries); `None`: no readable manifest
+    disk: Option<(String, Files)>,
+    view: Files,
+    pending: Files,
+}
+
+struct Run {
+    root: std::path::PathBuf,
+    store: Option<Store>,
+    m: Model,
+    pool: Vec<Vec<u8>>,
+    log: Vec<String>,
+    // coverage
+    saves: usize,
+    reopens: usize,
+    keeps: usize,
+    identical: usize,
+    skipped_writes: usize,
+    feat: BTreeMap<&'static str, bool>,
+}
+
+type Fail = (String, String);
+
+fn manifest_ino(root: &Path) -> Option<u64> {
+    use std::os::unix::fs::MetadataExt;
+    std::fs::metadata(root.join("manifest.toml")).ok().map(|m| m.ino())
+}
+
+impl Run {
+    fn flag(&mut self, k: &'static str) {
+        self.feat.insert(k, true);
+    }
+
+    /// entry of `p` through the live store vs the model's entry
+    fn compare(&self, when: &str, p: &str, want: Option<&MEntry>) -> Result<(), Fail> {
+        let store = self.store.as_ref().unwrap();
+        let got: Option<&FileEntry> = store.entry(p);
+        match (got, want) {
+            (None, None) => Ok(()),
+            (Some(e), None) => Err((format!("{when}:entry-unexpected"), format!("{p:?} has an entry {e:?} although the last saved build visible under this key has none for it"))),
+            (None, Some(w)) => Err((format!("{when}:entry-missing"), format!("{p:?} has no entry; the last saved build had {w:?}"))),
+            (Some(e), Some(w)) => {
+                if e.hash != w.hash {
+                    return Err((format!("{when}:field-hash"), format!("{p:?}: hash {:?}, saved {:?}", e.hash, w.hash)));
+                }
+                if e.dependents != w.deps {
+                    return Err((format!("{when}:field-dependents"), format!("{p:?}: dependents {:?}, saved {:?}", e.dependents, w.deps)));
+                }
+                if e.tests != w.tests {
+                    return Err((format!("{when}:field-tests"), format!("{p:?}: tests {:?}, saved {:?}", e.tests, w.tests)));
+                }
+                if e.fragment.is_some() != w.frag.is_some() {
+                    return Err((format!("{when}:field-fragment"), format!("{p:?}: fragment {:?}, saved build had fragment={}", e.fragment, w.frag.is_some())));
+                }
+                if let Some(i) = w.frag {
+                    let got = store.load(e);
+                    if got.as_deref() != Some(self.pool[i].as_slice()) {
+                        return Err((
+                            format!("{when}:blob-bytes"),
+                            format!("{p:?}: load() gives {:?} but the saved fragment was blob #{i} ({} bytes); file {:?}", got.map(|b| b.len()), self.pool[i].len(), e.fragment),
+                        ));
+                    }
+                }
+                let dwant = match w.diag {
+                    Diag::None => {
+                        if e.diagnostics.is_some() {
+                            return Err((format!("{when}:field-diagnostics"), format!("{p:?}: diagnostics {:?}, saved build had none", e.diagnostics)));
+                        }
+                        None
+                    }
+                    Diag::Some(i) => {
+                        if e.diagnostics.is_none() {
+                            return Err((format!("{when}:field-diagnostics"), format!("{p:?}: no diagnostics, saved build had blob #{i}")));
+                        }
+                        Some(i)
+                    }
+                    Diag::Unspecified(i) => e.diagnostics.as_ref().map(|_| i),
+                };
+                if let Some(i) = dwant {
+                    let got = store.load_diagnostics(e);
+                    if got.as_deref() != Some(self.pool[i].as_slice()) {
+                        return Err((
+                            format!("{when}:diag-bytes"),
+                            format!("{p:?}: load_diagnostics() gives {:?} but the saved diagnostics were blob #{i}; file {:?}", got.map(|b| b.len()), e.diagnostics),
+                        ));
+                    }
+                }
+                Ok(())
+            }
+        }
+    }
+
+    fn compare_all(&self, when: &str) -> Result<(), Fail> {
+        for p in PATHS.iter().chain([NEVER].iter()) {
+            self.compare(when, p, self.m.view.get(*p))?;
+        }
+        Ok(())
+    }
+
+    /// Every blob path named in the manifest file on disk exists and has a valid header.
+    fn check_disk_refs(&self) -> Result<usize, Fail> {
+        let Ok(text) = std::fs::read_to_string(self.root.join("manifest.toml")) else {
+            return Err(("save:manifest-unreadable".into(), "after save() there is no readable manifest.toml".into()));
+        };
+        let mut n = 0;
+        for line in text.lines() {
+            let l = line.trim();
+            for key in ["fragment = \"", "diagnostics = \""] {
+                if let Some(rest) = l.strip_prefix(key).or_else(|| l.strip_prefix(key.replace('"', "'").as_str())) {
+                    let rel = rest.trim_end_matches(['"', '\'']);
+                    n += 1;
+                    let data = std::fs::read(self.root.join(rel)).map_err(|e| {
+                        ("save:referenced-blob-missing".to_string(), format!("the saved manifest references {rel:?} ({}) but the file cannot be read: {e}", key.trim_end_matches(" = \"")))
+                    })?;
+                    if data.len() < 8 || &data[..4] != b"VFRG" {
+                        return Err(("save:referenced-blob-invalid".into(), format!("the saved manifest references {rel:?} but the file has no valid blob header")));
+                    }
+                }
+            }
+        }
+        Ok(n)
+    }
+
+    fn open(&mut self, key: &str, try_open: bool) -> Result<(), Fail> {
+        self.store = None; // releases the lock
+        self.log.push(format!("{}({key:.8})", if try_open { "try_open" } else { "open" }));
+        let s = if try_open {
+            match Store::try_open(&self.root, key) {
+                Some(s) => s,
+                None => return Err(("open:try_open-none".into(), "try_open returned None although no other store holds the lock".into())),
+            }
+        } else {
+            Store::open(&self.root, key)
+        };
+        self.store = Some(s);
+        self.m.pending.clear();
+        let matches = matches!(&self.m.disk, Some((k, _)) if k == key);
+        self.m.view = if matches { self.m.disk.as_ref().unwrap().1.clone() } else { Files::new() };
+        let when = if matches {
+            "reopen"
+        } else if self.m.disk.is_some() {
+            "reopen-other-key"
+        } else {
+            "reopen-no-manifest"
+        };
+        self.compare_all(when)
+    }
+
+    fn put(&mut self, p: &str, ver: u32, blob: Option<usize>) {
+        let hash = content_hash(format!("{p}|{ver}").as_bytes());
+        self.log.push(format!("put({p:?}, v{ver}, {blob:?})"));
+        let pool = &self.pool;
+        self.store.as_mut().unwrap().put(p.to_string(), hash.clone(), blob.map(|i| pool[i].as_slice()));
+        self.m.pending.insert(p.to_string(), MEntry { hash, frag: blob, deps: vec![], tests: vec![], diag: Diag::None });
+    }
+
+    fn keep(&mut self, p: &str) {
+        self.log.push(format!("keep({p:?})"));
+        self.store.as_mut().unwrap().keep(p);
+        if let Some(e) = self.m.view.get(p) {
+            self.m.pending.insert(p.to_string(), e.clone());
+        }
+        self.keeps += 1;
+    }
+
+    fn invalidate(&mut self, p: &str) {
+        self.log.push(format!("invalidate({p:?})"));
+        self.store.as_mut().unwrap().invalidate(p);
+        if let Some(e) = self.m.pending.get_mut(p) {
+            e.frag = None;
+            if let Diag::Some(i) = e.diag {
+                e.diag = Diag::Unspecified(i);
+            }
+        }
+    }
+
+    fn set_dependents(&mut self, p: &str, deps: Vec<String>) {
+        self.log.push(format!("set_dependents({p:?}, {deps:?})"));
+        self.store.as_mut().unwrap().set_dependents(p, deps.clone());
+        if let Some(e) = self.m.pending.get_mut(p) {
+            e.deps = deps;
+        }
+    }
+
+    fn set_tests(&mut self, p: &str, tests: Vec<String>) {
+        self.log.push(format!("set_tests({p:?}, {tests:?})"));
+        self.store.as_mut().unwrap().set_tests(p, tests.clone());
+        if let Some(e) = self.m.pending.get_mut(p) {
+            e.tests = tests;
+        }
+    }
+
+    fn set_diagnostics(&mut self, p: &str, blob: usize) {
+        self.log.push(format!("set_diagnostics({p:?}, #{blob})"));
+        let pool = &self.pool;
+        self.store.as_mut().unwrap().set_diagnostics(p, &pool[blob]);
+        if let Some(e) = self.m.pending.get_mut(p)
+            && e.frag.is_some()
+        {
+            e.diag = Diag::Some(blob);
+        }
+    }
+
+    fn save(&mut self, key: &str, on_disk_current: bool) -> Result<(), Fail> {
+        let identical = on_disk_current && self.m.pending == self.m.view;
+        let ino = manifest_ino(&self.root);
+        self.log.push(format!("save(){}", if identical { "  // identical re-scan" } else { "" }));
+        self.store.as_mut().unwrap().save();
+        self.saves += 1;
+        if identical {
+            self.identical += 1;
+            if manifest_ino(&self.root) == ino {
+                self.skipped_writes += 1;
+            }
+        }
+        self.m.view = std::mem::take(&mut self.m.pending);
+        self.m.disk = Some((key.to_string(), self.m.view.clone()));
+        self.compare_all("save")?;
+        let refs = self.check_disk_refs()?;
+        let want: usize = self
+            .m
+            .view
+            .values()
+            .map(|e| e.frag.is_some() as usize + matches!(e.diag, Diag::Some(_)) as usize)
+            .sum();
+        let may: usize = self.m.view.values().filter(|e| matches!(e.diag, Diag::Unspecified(_))).count();
+        if refs < want || refs > want + may {
+            return Err((
+                "save:manifest-on-disk-differs".into(),
+                format!("the manifest on disk names {refs} blobs, the build just saved has {want} (+ up to {may} kept diagnostics of invalidated files)"),
+            ));
+        }
+        Ok(())
+    }
+}
+
+fn subset(d: &mut Draw, xs: &[&str], max: usize) -> Vec<String> {
+    let n = d.usize_in(0, max);
+    (0..n).map(|_| d.pick(xs).to_string()).collect()
+}
+
+/// One build the way `Incremental` / `LsIncremental` drive it.
+fn build(d: &mut Draw, r: &mut Run, key: &str, on_disk_current: bool, may_fail: bool) -> Result<bool, Fail> {
+    let rescan = !r.m.view.is_empty() && d.chance(1, 3);
+    if rescan {
+        // unchanged project: every fragment is a hit, files without fragment are re-analysed
+        r.flag("rescan_build");
+        let view = r.m.view.clone();
+        for (p, e) in &view {
+            if e.frag.is_some() {
+                r.keep(p);
+            } else {
+                // same source => same hash, still not cacheable
+                let hash = e.hash.clone();
+                r.log.push(format!("put({p:?}, same hash, None)"));
+                r.store.as_mut().unwrap().put(p.clone(), hash.clone(), None);
+                r.m.pending.insert(p.clone(), MEntry { hash, frag: None, deps: vec![], tests: vec![], diag: Diag::None });
+            }
+        }
+        // `save` of the callers re-applies the (unchanged) dependency map and tests
+        for (p, e) in &view {
+            if e.frag.is_none() || d.bool() {
+                r.set_dependents(p, e.deps.clone());
+                if !e.tests.is_empty() || d.bool() {
+                    r.set_tests(p, e.tests.clone());
+                }
+            }
+        }
+        if d.chance(1, 6) {
+            // ... or one file changed after all
+            let p = *d.pick(PATHS);
+            let blob = if d.chance(3, 4) { Some(d.below_usize(r.pool.len())) } else { None };
+            r.put(p, d.below(4), blob);
+        }
+    } else {
+        let n = d.usize_in(0, PATHS.len());
+        let mut order: Vec<&str> = PATHS.to_vec();
+        // generated order, each path at most once
+        for i in 0..order.len() {
+            let j = i + d.below_usize(order.len() - i);
+            order.swap(i, j);
+        }
+        for p in order.into_iter().take(n) {
+            let hit = r.m.view.get(p).is_some_and(|e| e.frag.is_some());
+            if hit && d.chance(1, 2) {
+                r.keep(p);
+            } else {
+                let blob = if d.chance(3, 4) {
+                    // a small pool: the same content under two paths shares one blob
+                    Some(if d.chance(1, 2) { d.below_usize(2) } else { d.below_usize(r.pool.len()) })
+                } else {
+                    None
+                };
+                if blob.is_some() && r.m.pending.values().any(|e| e.frag == blob) {
+                    r.flag("shared_blob");
+                }
+                r.put(p, d.below(4), blob);
+            }
+        }
+        let k = d.usize_in(0, 6);
+        for _ in 0..k {
+            let p = *d.pick(PATHS);
+            match d.weighted(&[3, 2, 3, 2]) {
+                0 => {
+                    let deps = subset(d, PATHS, 3);
+                    r.set_dependents(p, deps);
+                }
+                1 => {
+                    let t = subset(d, TESTS, 2);
+                    r.set_tests(p, t);
+                }
+                2 => {
+                    let b = if d.chance(1, 2) { d.below_usize(2) } else { d.below_usize(r.pool.len()) };
+                    if r.m.pending.values().any(|e| e.frag == Some(b)) {
+                        r.flag("diag_shares_fragment_blob");
+                    }
+                    if r.m.pending.get(p).is_some_and(|e| e.frag.is_none()) {
+                        r.flag("set_diagnostics_without_fragment");
+                    }
+                    r.set_diagnostics(p, b);
+                }
+                _ => {
+                    if let Some(e) = r.m.pending.get(p).cloned() {
+                        if e.frag.is_some() && r.m.pending.iter().any(|(q, o)| q != p && o.frag == e.frag) {
+                            r.flag("invalidate_one_of_shared");
+                        }
+                        if matches!(e.diag, Diag::Some(_)) {
+                            r.flag("invalidate_after_set_diagnostics");
+                        }
+                        r.flag("invalidate");
+                    }
+                    r.invalidate(p);
+                }
+            }
+        }
+    }
+    if may_fail && d.chance(1, 8) {
+        r.log.push("// build failed: no save".into());
+        r.flag("failed_build");
+        return Ok(false);
+    }
+    r.save(key, on_disk_current)?;
+    if d.chance(1, 10) {
+        // `save` twice in a row (nothing in progress: an empty build)
+        r.flag("save_twice");
+        r.save(key, true)?;
+    }
+    Ok(true)
+}
+
+fn tamper(d: &mut Draw, r: &mut Run) {
+    let mp = r.root.join("manifest.toml");
+    let Ok(text) = std::fs::read_to_string(&mp) else { return };
+    match d.below(5) {
+        0 => {
+            r.log.push("// tamper: manifest replaced by garbage".into());
+            let _ = std::fs::write(&mp, b"\x00\xffnot toml [[[");
+        }
+        1 => {
+            r.log.push("// tamper: manifest truncated".into());
+            let mut cut = text.len() / 2;
+            while !text.is_char_boundary(cut) {
+                cut -= 1;
+            }
+            // a truncated manifest may still parse (as a shorter build): rule that out
+            let _ = std::fs::write(&mp, format!("{}\n= = =\n", &text[..cut]));
+        }
+        2 => {
+            r.log.push("// tamper: manifest deleted".into());
+            let _ = std::fs::remove_file(&mp);
+        }
+        3 => {
+            r.log.push("// tamper: schema number lowered".into());
+            let _ = std::fs::write(&mp, text.replacen(&format!("schema = {}", veryl_cache::SCHEMA_VERSION), "schema = 1", 1));
+        }
+        _ => {
+            r.log.push("// tamper: schema number raised".into());
+            let _ = std::fs::write(&mp, text.replacen(&format!("schema = {}", veryl_cache::SCHEMA_VERSION), &format!("schema = {}", veryl_cache::SCHEMA_VERSION + 1), 1));
+        }
+    }
+    r.flag("tamper");
+    r.m.disk = None;
+}
+
+fn history(d: &mut Draw, r: &mut Run, keys: &[String], max_sessions: usize) -> Result<(), Fail> {
+    let sessions = d.usize_in(2, max_sessions);
+    let mut key = 0usize;
+    let mut prev_key: Option<usize> = None;
+    for s in 0..sessions {
+        if s > 0 {
+            if d.chance(1, 5) {
+                // configuration / compiler change, or back to an earlier one
+                let nk = if let Some(pk) = prev_key.filter(|_| d.bool()) { pk } else { d.below_usize(keys.len()) };
+                if nk != key {
+                    prev_key = Some(key);
+                    key = nk;
+                    r.flag("key_change");
+                }
+            }
+            if d.chance(1, 10) {
+                tamper(d, r);
+            }
+            r.reopens += 1;
+        }
+        let ls = d.chance(1, 3);
+        r.open(&keys[key], ls)?;
+        let mut current = matches!(&r.m.disk, Some((k, _)) if *k == keys[key]);
+        if current && !r.m.view.is_empty() && s > 0 {
+            r.flag("reopen_sees_entries");
+        }
+        let builds = if ls { d.usize_in(1, 3) } else { 1 };
+        for _ in 0..builds {
+            if build(d, r, &keys[key], current, !ls)? {
+                current = true;
+            }
+        }
+        r.log.push("drop".into());
+        r.store = None;
+    }
+    // final reopen: under the last key and under another one
+    r.reopens += 1;
+    r.open(&keys[key], false)?;
+    r.store = None;
+    let other = (key + 1) % keys.len();
+    r.open(&keys[other], true)?;
+    r.store = None;
+    r.open(&keys[key], false)?;
+    Ok(())
+}
+
+pub fn run(ctx: &Ctx) {
+    let keys: Vec<String> = (0..3).map(|i| global_key(&["0.20.3", "binary", &format!("cfg{i}")])).collect();
+    let n = ctx.scale(5_000, 150_000);
+    let max_sessions = ctx.scale(6, 12);
+    ctx.run("history", CaseCfg::cases(n).choices(1200).same_thread().shrink_iters(3000), |d: &mut Draw| {
+        // one scratch directory per worker thread (creating / removing thousands of
+        // directories under one shared parent serialises the workers in the kernel)
+        thread_local!(static BASE: (Scratch, std::cell::Cell<u64>) = (Scratch::new("c29"), std::cell::Cell::new(0)));
+        let case_dir = BASE.with(|(b, n)| {
+            n.set(n.get() + 1);
+            b.join(&format!("h{}", n.get()))
+        });
+        struct Rm(std::path::PathBuf);
+        impl Drop for Rm {
+            fn drop(&mut self) {
+                let _ = std::fs::remove_dir_all(&self.0);
+            }
+        }
+        let _rm = Rm(case_dir.clone());
+        let mut r = Run {
+            root: case_dir.join("cache"),
+            store: None,
+            m: Model { disk: None, view: Files::new(), pending: Files::new() },
+            pool: blob_pool(),
+            log: vec![],
+            saves: 0,
+            reopens: 0,
+            keeps: 0,
+            identical: 0,
+            skipped_writes: 0,
+            feat: BTreeMap::new(),
+        };
+        let res = history(d, &mut r, &keys, max_sessions);
+        r.store = None;
+        let text = r.log.join("\n");
+        match res {
+            Err((sig, msg)) => {
+                let last = r.log.last().cloned().unwrap_or_default();
+                Outcome::fail(sig, format!("after `{last}`: {msg}"), json!({"history": r.log}))
+            }
+            Ok(()) => {
+                let mut classes: Vec<String> = r.feat.keys().map(|k| k.to_string()).collect();
+                if r.identical > 0 {
+                    classes.push("identical_rescan".into());
+                }
+                if r.skipped_writes > 0 {
+                    classes.push("identical_rescan_write_skipped".into());
+                }
+                if r.keeps > 0 {
+                    classes.push("keep".into());
+                }
+                if r.saves >= 3 {
+                    classes.push("saves_ge_3".into());
+                }
+                let nt = r.saves > 0 && r.reopens > 0 && (r.keeps > 0 || r.identical > 0);
+                Outcome::pass(hash_str(&text), nt, classes, text)
+            }
+        }
+    });
+
+    ctx.assume("sequences are those of the two real callers: a store is dropped before the next one is opened (the lock), the manifest is only damaged while no store is open, a build without save ends the session (veryl), every path is put/kept at most once per build, keep only for cache hits (entry with fragment)");
+    ctx.assume("invalidate after set_diagnostics: the doc comment promises fragment gone / dependents and tests kept; whether the diagnostics blob stays is left open (if it stays it must load)");
+    ctx.assume("a damaged manifest (garbage / truncated / deleted / other schema number) means: no saved build");
+    ctx.finish(
+        "exploration",
+        "histories of 2..6 sessions (veryl: open, one build, save unless failed, drop; veryl-ls: try_open, 1..3 saved builds, drop) over 7 paths (blanks, quotes, backslashes, multi-byte), 3 keys, a pool of 6 blobs (empty, header-like, shared between paths and between fragment and diagnostics), with rescans of an unchanged project, key changes (and back), manifest damage between sessions; non-trivial = has a save, a reopen and a keep or an identical re-scan; distinct by hash of the operation log",
+    );
 }
